@@ -24,6 +24,11 @@ inductive WOp where
   | ne | lt | le | eq | ge | gt | land | lor
   deriving DecidableEq, Repr, Inhabited
 
+/-- Unary operators (token.IDXUnary*). -/
+inductive WUn where
+  | pos | neg | lnot
+  deriving DecidableEq, Repr, Inhabited
+
 /-- The unsigned numeric types of the fragment. -/
 inductive WTy where
   | u8 | u16 | u32 | u64
